@@ -58,6 +58,9 @@ func mcScenario(name string) scenario {
 		sc.Cfgs = three
 		sc.Specs = []env.PodSpec{{Name: "d-a", Kind: "dp", App: "d", Policy: 1}, {Name: "d-b", Kind: "dp", App: "d", Policy: 1}}
 		sc.Dp["d"] = 1
+	case "dp-scale":
+		sc.Specs = []env.PodSpec{{Name: "d-a", Kind: "dp", App: "d", Policy: 1}, {Name: "d-b", Kind: "dp", App: "d", Policy: 1}}
+		sc.Dp["d"] = 2
 	case "dp-pool":
 		sc.Specs = []env.PodSpec{{Name: "d-a", Kind: "dp", App: "d", Policy: 2, Pool: "pl"}, {Name: "e-a", Kind: "dp", App: "e", Policy: 2, Pool: "pl"}}
 		sc.Dp["d"], sc.Dp["e"] = 1, 1
@@ -65,6 +68,11 @@ func mcScenario(name string) scenario {
 	default:
 		panic("unknown model scenario " + name)
 	}
+	// pods the model's schedule never touches: after the schedule they ask for every address of the pool (pressure)
+	for i := range allIPs(sc.Cfgs) {
+		sc.Specs = append(sc.Specs, env.PodSpec{Name: fmt.Sprintf("t-%d", i), Kind: "sts", App: "t", Policy: 0})
+	}
+	sc.Sts["t"] = int32(len(allIPs(sc.Cfgs)))
 	return sc
 }
 
@@ -226,6 +234,30 @@ func (d *driver) replay(id int, s schedule) {
 	}
 	if !d.hung {
 		d.emitPlain(M{"ev": "ScheduleEnd", "skipped": skipped})
+		d.quiesce()
+		d.pressure()
+	}
+}
+
+// pressure: after a schedule has run and everything has settled, fresh pods ask for as many addresses as the pool has. An
+// address that was wrongly freed while its pod lives is handed out again here, which turns a precursor (a live pod's
+// address released) into the violation C01 speaks of (two live pods with the same address).
+func (d *driver) pressure() {
+	for _, s := range d.sc.Specs {
+		if d.hung || !d.w.Alive || s.App != "t" {
+			continue
+		}
+		pv, err := d.w.CreatePod(s)
+		if err != nil {
+			continue
+		}
+		d.emit(M{"ev": "CreatePod", "pod": s.Name, "uid": pv.UID, "ranges": pv.Ranges})
+		for guard := 0; len(d.w.Pevq) > 0 && guard < 50; guard++ {
+			d.deliverPod()
+		}
+		d.filterThenBind(s.Name)
+	}
+	if !d.hung {
 		d.quiesce()
 	}
 }
